@@ -12,7 +12,7 @@ from vf import elab
 from vf.elab import mk, L, locals_of
 from vf.fhdl2smt import TS
 from vf.zutil import get_vars
-from vf.hw import res
+from vf.hw import res, HwCheck, SidecarMismatch
 from migen import *
 from migen.genlib.resetsync import AsyncResetSynchronizer
 from migen.genlib.cdc import MultiReg
@@ -156,6 +156,24 @@ def c_same_domain(buffered):
         h = c_comb_identity("ClockDomainCrossing(sys->sys)", d)
     return h
 
+def c_cdc_write_side(buffered, depth=8):
+    """ClockDomainCrossing('a' -> 'b'), the two hand-over points, stated on the stream handshakes and the FIFO memory's ports (no internal register is named):
+    a word is STORED exactly when it is accepted at the sink, and it is the accepted word (otherwise words are lost or stored twice whatever the
+    pointers do); combinational clauses, so they hold in every state of both domains"""
+    from contracts.streamlib import tok, fire, ep_inputs
+    d = mk(stream.ClockDomainCrossing, [("data", 8)], "a", "b", depth, buffered)
+    h = HwCheck(f"ClockDomainCrossing(a->b{',buffered' if buffered else ''}).hand-over", d, ep_inputs(d.sink, d.source), clock="a")
+    wp = [p for m in h.ts.mems for p in m.ports if p.we is not None]
+    if len(wp) != 1 or any(x not in h.ts.var for x in (wp[0].we, wp[0].dat_w)): raise SidecarMismatch(f"expected one write port of the FIFO memory among the module's signals, found {len(wp)}")
+    we = h.v(wp[0].we) != 0; dw = h.v(wp[0].dat_w)
+    t = tok(h, d.sink)
+    h.ensure("ens.stored-iff-accepted", we == fire(h, d.sink))
+    h.ensure("ens.stored-word-is-the-accepted-word", z3.Implies(we, z3.Extract(7, 0, dw) == h.v(d.sink.data)))
+    h.cover("cover.store", we, depth=1)
+    h.skip_cosim = True; h.assumption_notes.append('two clock domains: the single-clock co-simulation of the extraction is skipped for this case (the extraction of the same classes is co-simulated in C03/C05 single-domain cases and compared with the real two-clock simulator in C01 multiclock-reference)')
+    h.functions = ["litex.soc.interconnect.stream.ClockDomainCrossing.__init__ (sink hand-over)", "litex.soc.interconnect.stream.AsyncFIFO.__init__", "litex.soc.interconnect.stream._FIFOWrapper.__init__"]
+    return h
+
 def c_axil_cdc():
     from litex.soc.interconnect.axi import AXILiteInterface, AXILiteClockDomainCrossing
     m = AXILiteInterface(data_width=32, address_width=16); s_ = AXILiteInterface(data_width=32, address_width=16)
@@ -178,7 +196,7 @@ def cases(tier):
           VCase("ClockDomainCrossing(a->b)", c_cdc_structure, False), VCase("ClockDomainCrossing(a->b,buffered)", c_cdc_structure, False, True),
           VCase("ClockDomainCrossing(a->b,common_rst)", c_cdc_structure, True), VCase("ClockDomainCrossing.common_rst.wiring", c_common_rst_wiring),
           VCase("ClockDomainCrossing(sys->sys)", c_same_domain, False), VCase("ClockDomainCrossing(sys->sys,buffered)", c_same_domain, True),
-          VCase("AXILiteClockDomainCrossing", c_axil_cdc)]
+          VCase("AXILiteClockDomainCrossing", c_axil_cdc), VCase("ClockDomainCrossing(a->b).hand-over", c_cdc_write_side, False), VCase("ClockDomainCrossing(a->b,buffered).hand-over", c_cdc_write_side, True)]
     if tier == "thorough":
         cs += [VCase("BusSynchronizer(W=3,timeout=24,R=3)", c_bussync, 3, 24, 3, 40, timeout=3000)]
     return cs
